@@ -128,6 +128,7 @@ func (e *Engine) verifyFuncInstance(rep *FuncReport, fn *ssa.Function, fc *contr
 	}
 	r := e.newRun(name, fc.Mode, fc.Props)
 	r.safe = fc.Safe
+	r.lenBoundLog2 = fc.LenBoundLog2
 	var replayInfo *ReplayInfo
 	defer func() {
 		if x := recover(); x != nil {
